@@ -364,6 +364,59 @@ def r15i(chk, rid='R15.i'):
 
 
 
+def namespaces_view(chk, sheet, list_types=()):
+    """A model of the sheet's _Namespaces object: the mapping is what _Namespaces.namespaces (evaluated
+    from util.py on the model rule list) computes at the moment of the call; get/keys/items/in/[] read
+    it; any other method the evaluated code calls on it is a no-op (change notifications)."""
+    import operator
+
+    from sa.absint import Evaluator, Loose, Raised, Record
+
+    um = chk.repo.mod(UTIL)
+    nsprop = um.get('_Namespaces.namespaces')
+
+    def unique_everseen(it, key=None):
+        seen, out = set(), []
+        for x in it:
+            k = key(x) if key else x
+            if k not in seen:
+                seen.add(k)
+                out.append(x)
+        return out
+
+    class View(Loose):
+        @property
+        def namespaces(self):
+            me = Loose(parentStyleSheet=sheet, _log=None)
+            got = Evaluator(nsprop, intrinsics={'unique_everseen': unique_everseen, 'operator': operator}, model_types=tuple(list_types), module=um, cls='_Namespaces').run(self=me)
+            if isinstance(got, Raised) or not isinstance(got, dict):
+                raise AnalysisError(f'_Namespaces.namespaces: {got!r}')
+            return got
+
+        def get(self, prefix, default=None):
+            return self.namespaces.get(prefix, default)
+
+        def keys(self):
+            return self.namespaces.keys()
+
+        def items(self):
+            return self.namespaces.items()
+
+        def values(self):
+            return self.namespaces.values()
+
+        def __contains__(self, prefix):
+            return prefix in self.namespaces
+
+        def __getitem__(self, prefix):
+            return self.namespaces[prefix]
+
+        def __iter__(self):
+            return iter(self.namespaces)
+
+    return View()
+
+
 def eval_delete_rule(chk, rid):
     """CSSStyleSheet.deleteRule (with _getUsedURIs, resolved in the class) evaluated on its syntax tree
     over a model sheet, for every index - negative ones included -, rule objects and foreign objects."""
@@ -389,9 +442,13 @@ def eval_delete_rule(chk, rid):
         rs = Rules([
             RuleM(type=2, tag='charset', **K), RuleM(type=10, tag='p=u1', prefix='p', namespaceURI='u1', **K), RuleM(type=10, tag='q=u1', prefix='q', namespaceURI='u1', **K),
             RuleM(type=10, tag='r=u2', prefix='r', namespaceURI='u2', **K), RuleM(type=10, tag='s=u3', prefix='s', namespaceURI='u3', **K),
-            RuleM(type=1, tag='style-u1', selectorList=Record(_getUsedUris=lambda: {'u1'}), **K), RuleM(type=1, tag='style-u2', selectorList=Record(_getUsedUris=lambda: {'u2'}), **K)])
+            RuleM(type=10, tag='default=u4', prefix='', namespaceURI='u4', **K),
+            RuleM(type=1, tag='style-u1', selectorList=Record(_getUsedUris=lambda: {'u1'}), **K), RuleM(type=1, tag='style-u2', selectorList=Record(_getUsedUris=lambda: {'u2'}), **K),
+            RuleM(type=1, tag='style-u4', selectorList=Record(_getUsedUris=lambda: {'u4'}), **K)])
         me = Sheet(_cssRules=rs, _checkReadonly=lambda: None)
         me.cssRules = rs
+        me._namespaces = namespaces_view(chk, me, (Rules,))
+        me.namespaces = me._namespaces
         for r in rs:
             r._parentStyleSheet = me
         return me, rs
@@ -420,7 +477,7 @@ def eval_delete_rule(chk, rid):
             want = 'IndexSizeErr, nothing changed'
         else:
             victim = build()[1][idx].tag
-            used_sole = victim in ('r=u2',)  # u2 is used and declared once; u1 is declared twice; u3 is unused
+            used_sole = victim in ('r=u2', 'default=u4')  # u2 and the default namespace u4 are used and declared once; u1 is declared twice; u3 is unused
             if used_sole:
                 ok = isinstance(res, Raised) and res.kind == 'NoModificationAllowedErr' and after == before and all(r._parentStyleSheet is me for r in rs)
                 want = 'refused (the namespace is in use and declared once), list and order unchanged'
@@ -437,8 +494,8 @@ def eval_delete_rule(chk, rid):
            f'{len(bad)} cases differ, e.g. ' + ' | '.join(bad[:2]))
     # the detached rule names no sheet
     me, rs = build()
-    victim = rs[5]
-    Evaluator(fn, intrinsics={'CSSRule': RuleM, 'xml': Record(dom=Record(IndexSizeErr='IndexSizeErr', NoModificationAllowedErr='NoModificationAllowedErr'))}, model_types=(Rules,), module=sm, cls='CSSStyleSheet').run(self=me, index=5)
+    victim = rs[6]
+    Evaluator(fn, intrinsics={'CSSRule': RuleM, 'xml': Record(dom=Record(IndexSizeErr='IndexSizeErr', NoModificationAllowedErr='NoModificationAllowedErr'))}, model_types=(Rules,), module=sm, cls='CSSStyleSheet').run(self=me, index=6)
     chk.ob(rid, SHEET, 'CSSStyleSheet.deleteRule', 'the removed rule names no sheet as parent', victim._parentStyleSheet is None and victim not in rs, f'parent {victim._parentStyleSheet!r}')
 
 
